@@ -390,6 +390,33 @@ let check_G line toks =
              | Ok p -> let e = squeeze (string_of_bytes p) and gt = squeeze (unhex got) in
                if e <> gt then report "G" id "pgn" (tohex e) (tohex gt) line
              | _ -> report "G" id "pgn" "model-panic" got line);
+            (* the hypothesis of C15_text_roundtrip: the exported text is the model's unwrapped text with some blanks of the
+               move list turned into line ends (header, the blank before the result and the result token untouched) *)
+            (match as_pgn_unwrapped g with
+             | Ok p ->
+               let e = string_of_bytes p and a = unhex got in
+               let hl = List.length (default_tags g.g_tag) + 1 and tl = 1 + List.length (print_rtag g.g_tag) in
+               let n = String.length e in
+               let ok = String.length a = n && n >= hl + tl &&
+                        (let r = ref true in
+                         for i = 0 to n - 1 do
+                           if a.[i] <> e.[i] then begin
+                             if i < hl || i >= n - tl then r := false
+                             else if not ((a.[i] = ' ' || a.[i] = '\n') && (e.[i] = ' ' || e.[i] = '\n')) then r := false
+                           end
+                         done; !r) in
+               if not ok then report "G" id "export-shape" (tohex e) got line
+             | _ -> ());
+            (* text level: the model's tokeniser + replay on the text the library exported reproduces the game *)
+            (match from_pgn_text !keys (bytes_of_string (unhex got)) with
+             | Ok (g2, tag2) ->
+               let want = (match g.g_status with GDrawOffered _ -> GOngoing | s -> s) in
+               if List.map mv_str g2.g_moves <> List.map mv_str g.g_moves then report "G" id "model-import" "same-moves" "differs" line
+               else if g2.g_status <> want then report "G" id "model-import" (gstatus_str want) (gstatus_str g2.g_status) line
+               else if List.map describe g2.g_positions <> List.map describe g.g_positions then report "G" id "model-import" "same-positions" "differs" line
+               else if string_of_bytes tag2 <> string_of_bytes (print_rtag g.g_tag) then report "G" id "model-import" (string_of_bytes (print_rtag g.g_tag)) (string_of_bytes tag2) line
+             | Err _ -> report "G" id "model-import" "ok" "err" line
+             | Panic -> report "G" id "model-import" "ok" "panic" line);
             (* model-internal: import after tokenisation reproduces the game (what C15_tokens claims) *)
             (match build std_desc with
              | Ok sb -> (match game_from_board sb with
@@ -450,7 +477,29 @@ let check_N line toks =
   let id = match get "id" with Some x -> x | None -> "?" in
   bump "N-records"; nontrivial ("N" ^ id);
   (match get "pgn" with Some "panic" -> report "N" id "pgn" "ok-or-err" "panic" line | Some x -> bump ("N-" ^ x) | None -> ());
-  (match get "slow" with Some "yes" -> report "N" id "slow" "no" "yes" line | _ -> ())
+  (match get "slow" with Some "yes" -> report "N" id "slow" "no" "yes" line | _ -> ());
+  (* the model's Game::from_pgn on the same bytes: outcome, error kind, imported moves, status, position, Result tag *)
+  (match get "in", get "pgn" with
+   | Some inp, Some got when got <> "panic" ->
+     let raw = unhex inp in
+     let ascii = not (List.exists (fun c -> Char.code c >= 128) (List.init (String.length raw) (String.get raw))) in
+     let exp field e = match get field with Some g -> if g <> e then report "N" id ("imp-" ^ field) e g line | None -> report "N" id ("imp-" ^ field) e "absent" line in
+     (match from_pgn_text !keys (bytes_of_string raw) with
+      | Panic -> report "N" id "imp" "ok-or-err" "model-panic" line
+      | Err e -> bump "N-model-err";
+        if got <> "err" then report "N" id "imp" "err" got line
+        else exp "ek" (match e with EPgn -> "pgn" | EIllegalAction -> "illegal-action" | EFinished -> "finished" | _ -> "other")
+      | Ok (g, tag) -> bump "N-model-ok"; bump ("N-imported-" ^ gstatus_str g.g_status);
+        if g.g_moves <> [] then bump "N-imported-with-moves";
+        if got <> "ok" then report "N" id "imp" "ok" got line
+        else begin
+          exp "gs" (gstatus_str g.g_status);
+          exp "mvl" (String.concat "," (List.map mv_str g.g_moves));
+          exp "d" (describe g.g_pos);
+          exp "np" (string_of_int (List.length g.g_positions));
+          if ascii then exp "tag" (tohex (string_of_bytes tag)) else bump "N-nonascii-tag-skipped"
+        end)
+   | _ -> ())
 let check_M line toks =
   let fs = fields_of toks in
   let get k = List.assoc_opt k fs in
